@@ -22,7 +22,7 @@ ASSUMPTIONS = common.ASSUME_QR + [
     'domain: content str/bytes/int; option values of the documented types (floats, None for scale, non-str/tuple colours are outside)',
     'a worker that does not return within the watchdog makes the run inconclusive, not violated']
 REQUIRED = ['evaluations', 'encode_observed', 'symbols_decoded', 'refused:ValueError', 'excluded_combination_refused',
-            'spelling_pairs_equal', 'serializer_refusals', 'serializer_accepts', 'cli_runs', 'cli_refusals']
+            'spelling_pairs_equal', 'serializer_refusals', 'serializer_accepts', 'cli_runs', 'cli_refusals', 'cli_spelling_pairs']
 TIMEOUT = {'quick': 900, 'thorough': 7200}
 
 VERSIONS = [None] * 6 + list(range(1, 41)) + [str(i) for i in range(1, 41)] + ['M1', 'M2', 'M3', 'M4', 'm1', 'm2', 'm3', 'm4'] + \
@@ -114,6 +114,7 @@ def gen_cases(tier, seed):
         cases.append({'kind': 'spelling', 'content': content, 'canon': canon, 'alt': alt})
     # serialisers
     BAD_COLORS = ['', '#', '#12', '#12345', '#1234567', '#123456789', 'notacolor', '#ggg', '#gggggg', 'rgb(0,0,0)', ' red', 'red ',
+                  '#0x12ab', '#12_345', '#+12345', '#-12345', '# 12345', '#12 345', '0x123456', '#１２３', '#12345６',
                   (1, 2), (1,), (), (1, 2, 3, 4, 5), (256, 0, 0), (-1, 0, 0), (0, 0, 256), (0, 0, 0, 256), (0, 0, 0, -1),
                   (0, 0, 0, 1.5), (0, 0, 0, -0.1)]
     GOOD_COLORS = ['red', 'RED', '#abc', '#AABBCC', '#aabbcc80', '#abcd', (1, 2, 3), (1, 2, 3, 128), (1, 2, 3, 0.5), 'transparent-none']
@@ -127,6 +128,12 @@ def gen_cases(tier, seed):
             if kind in ('ppm', 'eps', 'pdf', 'xpm', 'pam') and (isinstance(c, tuple) and len(c) == 4 or (isinstance(c, str) and len(c) in (5, 9))):
                 continue  # alpha colours are documented for PNG and SVG only
             cases.append({'kind': 'ser', 'out': kind, 'kw': {'dark': c}, 'expect': 'accept'})
+    # a valid colour first, then a malformed one that compares equal to it in Python (255 == 255.0, 1 == True): a result cache
+    # keyed by the argument must not turn the refusal into an acceptance
+    for kind in ('png', 'svg'):
+        for valid, invalid in (((10, 20, 30, 255), (10, 20, 30, 255.0)), ((1, 2, 3, 128), (1, 2, 3, 128.0)), ((9, 9, 9, 2), (9, 9, 9, 2.0))):
+            for arg in ('dark', 'light'):
+                cases.append({'kind': 'ser-seq', 'out': kind, 'steps': [[{arg: valid}, 'accept'], [{arg: invalid}, 'refuse']]})
     for kind in ('png', 'svg', 'eps', 'pdf', 'pam', 'ppm', 'xpm', 'pbm', 'xbm', 'tex'):
         for s in (0, -1, -0.5, 0.0, -100):
             cases.append({'kind': 'ser', 'out': kind, 'kw': {'scale': s}, 'expect': 'refuse'})
@@ -176,6 +183,12 @@ def gen_cases(tier, seed):
             argv.append('--no-error-boost')
         argv.append(gen.content_for_bits(rng.choice(['numeric', 'alphanumeric', 'byte']), rng.choice([1, 3, 10, 40])))
         cases.append({'kind': 'cli', 'argv': argv, 'ext': rng.choice(['png', 'svg', 'txt', 'pdf', 'eps', None, None])})
+    # CLI: documented alternative spellings give the same output as the canonical ones
+    for canon, alt in ((['--version=M3'], ['--version=m3']), (['--version=M1'], ['--version=m1']), (['--version=M4', '--error=L'], ['--version=m4', '--error=l']),
+                       (['--error=Q'], ['--error=q']), (['--error=H'], ['--error=h']), (['--mode=byte'], ['--mode=BYTE']),
+                       (['--mode=alphanumeric'], ['--mode=Alphanumeric']), (['--version=7'], ['-v', '7']), (['--pattern=3'], ['-p', '3'])):
+        for content in ('12345', 'ABC'):
+            cases.append({'kind': 'cli-pair', 'canon': canon + [content], 'alt': alt + [content]})
     rng.shuffle(cases)
     return cases
 
@@ -431,6 +444,23 @@ def run_cases(cases, rec, tier='quick', seed='0'):
                 run_spelling(case, rec)
             elif k == 'ser':
                 run_ser(case, rec, q)
+            elif k == 'ser-seq':
+                for kw, expect in case['steps']:
+                    run_ser({'out': case['out'], 'kw': core.dec(core.enc(kw)) if False else kw, 'expect': expect}, rec, q)
+            elif k == 'cli-pair':
+                outs = []
+                for argv in (case['canon'], case['alt']):
+                    target = os.path.join(tmpdir, 'pair%d.txt' % len(outs))
+                    if os.path.exists(target):
+                        os.remove(target)
+                    pr = subprocess.run([sys.executable, '-m', 'segno.cli', '--output=' + target] + list(argv), capture_output=True,
+                                        env=core.child_env(), timeout=120, cwd=tmpdir)
+                    data = open(target, 'rb').read() if os.path.exists(target) else None
+                    outs.append((pr.returncode, data))
+                rec.count('cli_spelling_pairs')
+                if outs[0] != outs[1]:
+                    rec.deviation('C14', 'cli-spelling-changes-result', {'canonical': case['canon'], 'alternative': case['alt'],
+                                                                         'rc': (outs[0][0], outs[1][0])})
             elif k == 'serpath':
                 try:
                     q.save(os.path.join(tmpdir, case['name']))
